@@ -58,7 +58,7 @@ LoAtom(a) == CASE a = "A" -> "a" [] a = "B" -> "b" [] a = "C" -> "c" [] a = "D" 
 \* order of atoms (for `sorted` over strings and string-keyed maps): code point order of the plain letters used
 AtomRank(a) == CASE a = "1" -> 1 [] a = "2" -> 2 [] a = "3" -> 3 [] a = "A" -> 10 [] a = "B" -> 11 [] a = "C" -> 12
                  [] a = "X" -> 13 [] a = "Y" -> 14 [] a = "a" -> 20 [] a = "b" -> 21 [] a = "c" -> 22
-                 [] a = "x" -> 23 [] a = "y" -> 24 [] OTHER -> 30
+                 [] a = "x" -> 23 [] a = "y" -> 24 [] a = "z" -> 25 [] a = "EACUTE" -> 40 [] a = "CJK" -> 50 [] OTHER -> 30
 RECURSIVE StrLess(_, _)
 StrLess(a, b) == IF b = <<>> THEN FALSE ELSE IF a = <<>> THEN TRUE
                  ELSE IF AtomRank(Head(a)) # AtomRank(Head(b)) THEN AtomRank(Head(a)) < AtomRank(Head(b))
